@@ -85,6 +85,13 @@ def parseNAct (mode : RxMode) (j : Json) : Except String NAct := do
   | "ctlRemoveTargetById" =>
     let v ← parseVarName (← j.getObjValAs? String "v")
     pure (.ctlRemoveTargetById (← j.getObjValAs? Nat "lo") (← j.getObjValAs? Nat "hi") v (mkCtlExc mode v (← hexField j "k")))
+  | "ctlRemoveByMsg" => pure (.ctlRemoveByMsg (← hexField j "msg"))
+  | "ctlRemoveTargetByTag" =>
+    let v ← parseVarName (← j.getObjValAs? String "v")
+    pure (.ctlRemoveTargetByTag (← hexField j "tag") v (mkCtlExc mode v (← hexField j "k")))
+  | "ctlRemoveTargetByMsg" =>
+    let v ← parseVarName (← j.getObjValAs? String "v")
+    pure (.ctlRemoveTargetByMsg (← hexField j "msg") v (mkCtlExc mode v (← hexField j "k")))
   | "ctlAuditEngine" =>
     let m ← j.getObjValAs? String "m"
     pure (.ctlAuditEngine (match m with | "On" => .on | "RelevantOnly" => .relevantOnly | _ => .off))
@@ -135,7 +142,8 @@ def parseRule (mode : RxMode) (j : Json) : Except String Rule := do
     match Bytes.ofField s with | some b => pure b | none => throw "tag"
   let log ← j.getObjValAs? Bool "log"
   let audit ← j.getObjValAs? Bool "audit"
-  pure ⟨id, ph, mk, links, disr, st, skip, sa, if sev < 0 then none else some sev.toNat, tags, log, audit⟩
+  let msg := match j.getObjValAs? String "msg" with | .ok h => (Bytes.ofField h).getD [] | _ => []
+  pure ⟨id, ph, mk, links, disr, st, skip, sa, if sev < 0 then none else some sev.toNat, tags, log, audit, msg⟩
 
 def parseSel (j : Json) : Except String IdSel := do
   let a ← fromJson? (α := Array Nat) j
@@ -175,6 +183,7 @@ def parseItem (mode : RxMode) (j : Json) : Except String Item := do
     match d with
     | "removeById" => pure (.dir (.removeById (← sels)))
     | "removeByTag" => pure (.dir (.removeByTag (← hexField j "tag")))
+    | "removeByMsg" => pure (.dir (.removeByMsg (← hexField j "msg")))
     | "updateTargetById" => pure (.dir (.updateTargetById (← sels) (← items)))
     | "updateTargetByTag" => pure (.dir (.updateTargetByTag (← hexField j "tag") (← items)))
     | "updateActionById" => pure (.dir (.updateActionById (← sels) (← parseUpd mode (← j.getObjVal? "upd"))))
@@ -268,7 +277,11 @@ def ruleRxArgs (r : Rule) : List Bytes :=
 def rulePatterns (r : Rule) : List Bytes :=
   r.links.flatMap fun l =>
     (l.targets.flatMap fun t => t.rx.toList ++ t.exc.flatMap (·.rx.toList)) ++
-    (l.nacts.flatMap fun a => match a with | .ctlRemoveTargetById _ _ _ e => e.rx.toList | _ => [])
+    (l.nacts.flatMap fun a => match a with
+      | .ctlRemoveTargetById _ _ _ e => e.rx.toList
+      | .ctlRemoveTargetByTag _ _ e => e.rx.toList
+      | .ctlRemoveTargetByMsg _ _ e => e.rx.toList
+      | _ => [])
 
 /-- inputs outside the modelled fragment: lowercase/uppercase are modelled on ASCII only; regex keys and
     @rx arguments outside the regex fragment -/
